@@ -149,6 +149,7 @@ func isPrefix(a, b []int) bool {
 func init() {
 	Register(&Scenario{
 		Name:     "stream",
+		LazyToo:  true,
 		Property: "C07",
 		Cfg:      vsched.Config{Horizon: 10 * time.Second},
 		Params: func(tier string) []Param {
